@@ -59,6 +59,45 @@ theorem strDesc_shape (s : Lx) (q : Byte) (after : Bytes) (hr : s.rest = q :: af
   · show replaceAll (strSpan s.rest).2 [92, s.char] [s.char] = _
     rw [hc]
 
+theorem strScan_le (q : Byte) : ∀ l : Bytes, strScan q l ≤ l.length
+  | [] => by simp [strScan]
+  | [c] => by simp [strScan]
+  | c :: d :: t => by
+    rw [strScan_cons2]
+    have := strScan_le q (d :: t)
+    split <;> simp only [List.length_cons] at this ⊢ <;> omega
+
+/-- **an unterminated string**: no closing quote before the end of the input — the scan covers
+    everything that is left and the raw text is all of it after the opening quote -/
+theorem strSpan_unterminated (q : Byte) (after : Bytes) (h : (q :: after).length < (strSpan (q :: after)).1) :
+    (q :: after).take (strSpan (q :: after)).1 = q :: after ∧ (strSpan (q :: after)).2 = after := by
+  unfold strSpan at h ⊢
+  simp only [List.headD_cons, List.drop_succ_cons, List.drop_zero] at h ⊢
+  by_cases he : (after.headD 0 == q && !after.isEmpty) = true
+  · simp only [he, if_true, List.length_cons] at h
+    cases after with
+    | nil => simp at he
+    | cons c t => simp only [List.length_cons] at h; omega
+  · simp only [he, Bool.false_eq_true, if_false, List.length_cons] at h ⊢
+    have hle := strScan_le q after
+    have : strScan q after = after.length := by omega
+    rw [this]
+    constructor
+    · rw [List.take_of_length_le (by simp)]
+    · simp
+
+theorem strDesc_unterminated (s : Lx) (q : Byte) (after : Bytes) (hr : s.rest = q :: after)
+    (hopen : s.rest.length < (strSpan s.rest).1) :
+    (strDesc s).ty = .STR ∧ s.rest.take (strDesc s).n = s.rest ∧ (strDesc s).lit = replaceAll after [92, q] [q] := by
+  have hc : s.char = q := by simp [Lx.char, hr]
+  rw [hr] at hopen
+  obtain ⟨h1, h2⟩ := strSpan_unterminated q after hopen
+  refine ⟨rfl, ?_, ?_⟩
+  · show s.rest.take (strSpan s.rest).1 = _
+    rw [hr]; exact h1
+  · show replaceAll (strSpan s.rest).2 [92, s.char] [s.char] = _
+    rw [hc, hr, h2]
+
 /-- in code, at a quote, `NextToken` returns that token -/
 theorem codeDesc_string (s : Lx) (h : s.char = 34 ∨ s.char = 39) : codeDesc s = strDesc s := by
   unfold codeDesc
